@@ -106,6 +106,10 @@ def hist_events():
         ev.append(("enable", n))
         ev.append(("disable", n))
         ev.append(("move", n, "down"))
+    # names that look like the ones the loader makes up for filters without a name comment
+    ev.append(("add", "Unnamed rule 1", "d1"))
+    ev.append(("add", "Unnamed rule 2", "d7"))
+    ev.append(("move", "Unnamed rule 1", "down"))
     return ev
 
 
